@@ -21,6 +21,7 @@ func init() {
 			{Name: "leave-from-left-restarts", File: "serf/serf.go", Func: "func (s *Serf) Leave(", Old: "\tcase SerfLeft:\n\t\ts.stateLock.Unlock()\n\t\treturn nil\n", New: "", Expect: "R"},
 			{Name: "state-written-unlocked", File: "serf/serf.go", Func: "func (s *Serf) Leave(", Old: "\ts.state = SerfLeaving\n\ts.stateLock.Unlock()\n", New: "\ts.stateLock.Unlock()\n\ts.state = SerfLeaving\n", Expect: "R"},
 			{Name: "shutdown-not-idempotent", File: "serf/serf.go", Func: "func (s *Serf) Shutdown(", Old: "\tif s.state == SerfShutdown {\n\t\treturn nil\n\t}\n", New: "", Expect: "R3"},
+			{Name: "leave-returns-early-on-broadcast-timeout", File: "serf/serf.go", Func: "func (s *Serf) Leave(", Old: "\t\ts.logger.Printf(\"[WARN] serf: timeout waiting for leave broadcast: %s\", err.Error())\n", New: "\t\ts.logger.Printf(\"[WARN] serf: timeout waiting for leave broadcast: %s\", err.Error())\n\t\treturn nil\n", Expect: "R3|Leave:success-means-left"},
 			{Name: "join-after-leave", File: "serf/serf.go", Func: "func (s *Serf) Join(", Old: "if s.State() != SerfAlive {", New: "if s.State() == SerfShutdown {", Expect: "R3"},
 			{Name: "new-state-writer", File: "serf/serf.go", Func: "func (s *Serf) handleNodeConflict(", Old: "\t// The current node is conflicting! This is an error\n", New: "\ts.state = SerfAlive\n", Expect: "R1"},
 		},
@@ -213,6 +214,37 @@ func runC34(c *an.Ctx) {
 			c.Add(bad == nil, "R3", "Leave:repeat-succeeds", lv, "Leave after a completed leave returns nil", "reachability from the already-left edge")
 		}
 		c.Add(len(an.EdgesImplying(lv, an.Cmp{L: "$0.state", Op: "==", R: left})) > 0, "R3", "Leave:left-edge-exists", lv, "Leave tests for the already-left state", "edge enumeration")
+		// a Leave that published "leaving" and reports success has recorded "left" (or saw a shutdown):
+		// otherwise the node stays leaving for good and every later Leave fails with "already in progress"
+		var leavingStore ssa.Instruction
+		var leftStores []ssa.Instruction
+		for _, a := range an.FieldAccesses([]*ssa.Function{lv}, "Serf", "state") {
+			switch an.Path(a.Val) {
+			case cv(c, serf, "SerfLeaving"):
+				leavingStore = a.Instr
+			case left:
+				leftStores = append(leftStores, a.Instr)
+			}
+		}
+		if c.Add(leavingStore != nil && len(leftStores) > 0, "R3", "Leave:completes:anchors", lv, "Leave stores leaving and later left", "store enumeration") {
+			isLeft := func(in ssa.Instruction) bool {
+				for _, l := range leftStores {
+					if in == l {
+						return true
+					}
+				}
+				return false
+			}
+			bad := an.ReachFrom(lv, leavingStore, &an.Cut{Instrs: isLeft, Edges: an.EdgesImplying(lv, an.Cmp{L: "$0.state", Op: "==", R: shut})}, func(in ssa.Instruction) bool {
+				r, ok := in.(*ssa.Return)
+				if !ok {
+					return false
+				}
+				v := an.ResultValues(r)
+				return len(v) == 1 && an.IsNilConst(an.Bound(v[0]))
+			})
+			c.Add(bad == nil, "R3", "Leave:success-means-left", orInstr(bad, leavingStore), "every successful return of a Leave that published leaving passes the store of left (or saw a shutdown)", "reach/cut from the leaving store to nil returns")
+		}
 	}
 	if jn := sm(c, "R3", "Serf", "Join"); jn != nil {
 		for _, e := range an.CallsTo(jn, "memberlist.(*Memberlist).Join", "(*Serf).broadcastJoin") {
@@ -712,4 +744,11 @@ func closureOfArg(v ssa.Value) bool {
 	}
 	_, isMC := an.ResultValues(rets[0])[0].(*ssa.MakeClosure)
 	return isMC
+}
+
+func orInstr(a, b ssa.Instruction) ssa.Instruction {
+	if a != nil {
+		return a
+	}
+	return b
 }
